@@ -109,7 +109,8 @@ PROPS = {
         'components': {'real': ['gnpy.core.info.SpectralInformation and its constructors / select / demux / mux',
                                 'all elements, RamanSolver / NliSolver, propagate, auto-design (element layer)'],
                        'stubbed': ['nothing']},
-        'assumptions': COMMON_ASSUME + ['no fault kind exists for a value object: faults_injected is empty by design',
+        'assumptions': COMMON_ASSUME + ['no fault kind exists for the value-object layer; the element layer injects one: a propagation aborted inside '
+                                        'an element at a drawn crossing',
                                         'NLI additions are bounded by 0.3 of the channel power and launch powers by '
                                         '+10 dBm, as the property states'],
     },
